@@ -2,7 +2,17 @@ A = "vsg/vhdlFile/extract/get_tokens_at_beginning_of_line_matching.py"
 M = "vsg/vhdlFile/extract/get_tokens_matching.py"
 S = "vsg/vhdlFile/extract/get_sequence_of_tokens_matching.py"
 B = "vsg/vhdlFile/extract/get_tokens_bounded_by.py"
+U = "vsg/vhdlFile/extract/utils.py"
+N = "vsg/vhdlFile/extract/get_token_and_n_tokens_before_it.py"
+G = "vsg/vhdlFile/extract/get_tokens_at_beginning_of_line_matching_between_tokens_unless_between_tokens.py"
 MUTANTS = [
+    # order of the regions (what vhdlFile.update assumes)
+    ("positions-not-sorted", U, "    lReturn.sort()\n\n    return lReturn\n\n\ndef get_indexes_of_token_pairs", "    return lReturn\n\n\ndef get_indexes_of_token_pairs"),
+    ("matching-not-sorted", M, "    lIndexes.sort()\n", ""),
+    ("matching-newest-first", M, "        lReturn.append(tokens.New(iIndex, iLine, [lAllTokens[iIndex]]))", "        lReturn.insert(0, tokens.New(iIndex, iLine, [lAllTokens[iIndex]]))"),
+    ("unless-filter-newest-first", U, "        if bAppend:\n            lReturn.append(iIndex)", "        if bAppend:\n            lReturn.insert(0, iIndex)"),
+    ("before-it-newest-first", N, "            lReturn.append(tokens.New(iStart, iLine, lAllTokens[iStart : iIndex + 1]))", "            lReturn.insert(0, tokens.New(iStart, iLine, lAllTokens[iStart : iIndex + 1]))"),
+    ("generic-indent-start-plus-one", G, "lReturn.append(tokens.New(iIndex - 1, iLine, lAllTokens[iIndex - 1 : iIndex + 1]))", "lReturn.append(tokens.New(iIndex, iLine, lAllTokens[iIndex - 1 : iIndex + 1]))"),
     ("bounded-by-start-of-previous", B, "        oToi = tokens.New(iStart, iStartLine, lTemp)", "        oToi = tokens.New(iStart - 1, iStartLine, lTemp)"),
     ("bounded-by-line-of-end", B, "        iStartLine = oTokenMap.get_line_number_of_index(iStart)", "        iStartLine = oTokenMap.get_line_number_of_index(iEnd)"),
     ("bol-start-off-by-one", A, "tokens.New(iIndex - 1, iLine, lAllTokens[iIndex - 1 : iIndex + 1])", "tokens.New(iIndex, iLine, lAllTokens[iIndex - 1 : iIndex + 1])"),
